@@ -683,26 +683,47 @@ def sum_axioms(terms, rounds=1, done=None, signs=True, pairs=True):
         sk = Fresh.int("sk")
         b = d.body_at(a, sk)
         rng = z3.And(lo <= sk, sk < hi)
+        if getattr(sum_axioms, "_sks", None) is None:
+            sum_axioms._sks = set()
+        sum_axioms._sks.add(sk.decl().name())
         sign_ax += [z3.Implies(z3.Implies(rng, b >= 0), a >= 0), z3.Implies(z3.Implies(rng, b <= 0), a <= 0),
                     z3.Implies(z3.Implies(rng, b == 0), a == 0),
                     # sum_pos: non-empty range and positive terms
                     z3.Implies(z3.And(lo < hi, z3.Implies(rng, b > 0)), a > 0)]
-    # applications that appear only through sign instances: give them their own empty/sign axioms once,
-    # but never pair them (marked in `done` with a 'nopair' tag)
+    # Applications that appear only through sign instances *at a sign skolem index* are not expanded further
+    # (they get their own empty/sign axioms once and are never paired); applications met there whose arguments
+    # do not involve a sign skolem (e.g. a normalisation sum used as a factor) are ordinary applications.
+    sign_sks = done.setdefault("sign_skolems", set()) if isinstance(done, dict) else None
+    skset = getattr(sum_axioms, "_sks", None)
+    if skset is None:
+        skset = sum_axioms._sks = set()
+    for f_ in sign_ax:
+        for c_ in free_consts(f_):
+            if c_.decl().name().startswith("sk!"):
+                skset.add(c_.decl().name())
+
+    def at_sign_skolem(x):
+        return any(c_.decl().name() in skset for ch in x.children() for c_ in free_consts(ch))
     inner = [x for x in sum_apps(sign_ax) if x.get_id() not in done and ("empty", x.get_id()) not in done]
+    extra_apps = []
     for x in inner:
+        if not at_sign_skolem(x):
+            extra_apps.append(x)
+            continue
         done.add(x.get_id())
         done.add(("nopair", x.get_id()))
         d = SumDef.registry[x.decl().get_id()]
         lo, hi = x.arg(0), x.arg(1)
         sk = Fresh.int("sk")
+        skset.add(sk.decl().name())
         b = d.body_at(x, sk)
         rng = z3.And(lo <= sk, sk < hi)
         sign_ax += [z3.Implies(hi <= lo, x == 0), z3.Implies(z3.Implies(rng, b >= 0), x >= 0), z3.Implies(z3.Implies(rng, b <= 0), x <= 0)]
     for y in sum_apps(sign_ax):
-        if y.get_id() not in done:
+        if y.get_id() not in done and at_sign_skolem(y):
             done.add(y.get_id())
             done.add(("nopair", y.get_id()))
+    apps = apps + [x for x in extra_apps if all(x.get_id() != a_.get_id() for a_ in apps)]
     pairable = [a for a in apps if ("nopair", a.get_id()) not in done] if pairs else []
     for i, a in enumerate(pairable):
         for c in pairable[i + 1:]:
